@@ -173,23 +173,25 @@ func (r *Run) Sample(v any) {
 
 // Violation reports a property violation identified by key (the specific input,
 // call site or history). Known open findings with that key are tolerated.
-func (r *Run) Violation(key, what string, replay any) {
+// It returns false when the key is a listed open finding.
+func (r *Run) Violation(key, what string, replay any) bool {
 	r.mu.Lock()
 	defer r.mu.Unlock()
 	for _, f := range r.findings {
 		if f.Status == "open" && f.Key == key {
 			r.known[key]++
-			return
+			return false
 		}
 	}
 	for _, v := range r.violations {
 		if v.Key == key {
-			return
+			return true
 		}
 	}
 	if len(r.violations) < r.maxViol {
 		r.violations = append(r.violations, violation{key, what, replay})
 	}
+	return true
 }
 
 func (r *Run) Violations() int { r.mu.Lock(); defer r.mu.Unlock(); return len(r.violations) }
